@@ -20,7 +20,8 @@ TRUSTED = ["SV.PyOp / SV.PyMode (Model/Discretise.lean) as the meaning of Python
 ASSUMPTIONS = ["members, observations, thresholds and weights are dyadic (k/4) so comparisons are exact; quotients compared to 1e-9; "
                "the resolution-limit probes use arbitrary float64 / float32 / int64 values, sent to Lean as the exact rational the "
                "storage holds (guards and event counts are decided exactly; float32-stored brier_score values compared to 2e-6)",
-               "dask arrays are not generated; Dataset inputs only for brier_score (one and two variables); gather_dimensions is "
+               "dask arrays are not generated; Dataset inputs only for brier_score (one to four variables, also mixed with a DataArray); "
+               "infinite event thresholds: one -inf first and / or one +inf last (a repeated infinity is not generated, notes/C13.md); gather_dimensions is "
                "C01's subject (only 'all reduced', 'cases preserved' and one-dimension reductions are exercised here)"]
 MANIFEST = dict(
     level="proof",
@@ -51,10 +52,13 @@ RULE = ("ensembles of 1-5 members with 50 % of member values and 40 % of observa
         "float32 step outside and inside [0,1] resp. {0,1} (denormals, -1e-300, 0.3-0.1-0.2, +-2^-54, 1+2^-52, 1+2^-23, -0.0, "
         "int64 2/-1) as DataArray, one- and two-variable Dataset, alone / hidden among valid values / with NaNs, check_args on, "
         "omitted and off; ensemble members and observations one step beside the threshold, threshold lists increasing / "
-        "constant / decreasing by one step; distinct = "
+        "constant / decreasing by one step; infinite event thresholds (-inf first / +inf last / alone) with members and observations "
+        "equal to that infinity, every operator; brier_score on Datasets of 2-4 different variables (and DataArray vs Dataset) with a "
+        "non-binary observation / out-of-range forecast in every variable position, every storage format; distinct = "
         "distinct canonical input; non-trivial = at least one non-NaN score and not in the malformed stream")
 
 NAN = float("nan")
+INF = float("inf")
 COMPL = {"ge": "lt", "lt": "ge", "gt": "le", "le": "gt"}
 
 
@@ -75,6 +79,17 @@ def gen_ens_case(rng, malformed_ok=True):
         thr.sort()
     if nthr > 1 and rng.random() < 0.2:
         thr[1] = thr[0]
+    # infinite event thresholds are legal monotone thresholds ("inf >= inf" is a true statement): -inf first and / or +inf
+    # last, or a single infinite threshold; members and observations copied from the thresholds then ARE that infinity.
+    # (an infinity is never repeated in the list: see notes/C13.md, "[inf, inf]")
+    infinite = rng.random() < 0.25
+    if infinite:
+        r = rng.random()
+        if r < 0.15:
+            thr = [rng.choice([INF, -INF])]
+        else:
+            thr = ([-INF] if r < 0.75 else []) + thr + ([INF] if r > 0.4 else [])
+        nthr = len(thr)
     ncase = rng.choice([1, 2, 3, 4])
     nmem = rng.choice([1, 1, 2, 3, 4, 5])
     pn = rng.choice([0.0, 0.2, 0.5])
@@ -83,6 +98,8 @@ def gen_ens_case(rng, malformed_ok=True):
         r = rng.random()
         if r < pn:
             return NAN
+        if infinite and r > 0.9:
+            return rng.choice([INF, -INF])
         if r < pn + (1 - pn) * 0.5:
             return rng.choice(thr) + rng.choice([0, 0, 0.25, -0.25])
         return core.dyadic(rng, -4, 4)
@@ -96,7 +113,8 @@ def gen_ens_case(rng, malformed_ok=True):
     obs = []
     for _ in range(ncase):
         r = rng.random()
-        obs.append(NAN if r < 0.12 else rng.choice(thr) + rng.choice([0, 0.25, -0.25]) if r < 0.6 else core.dyadic(rng, -4, 4))
+        obs.append(NAN if r < 0.12 else rng.choice(thr) + rng.choice([0, 0.25, -0.25]) if r < 0.6 else
+                   rng.choice([INF, -INF]) if (infinite and r > 0.85) else core.dyadic(rng, -4, 4))
     op = rng.choice(list(COMPL))
     fair = rng.choice([True, False, "omit"])
     weights = None
@@ -182,7 +200,8 @@ def ens_desc(case):
 def ens_tags(case):
     ms = [sum(1 for x in r if not math.isnan(x)) for r in case["fcst"]]
     return {"op": case["op"], "fair": str(case["fair"]), "weights": case["weights"] is not None,
-            "m": "zero" if 0 in ms else "one" if 1 in ms else "many"}
+            "m": "zero" if 0 in ms else "one" if 1 in ms else "many",
+            "infinite_threshold": any(math.isinf(t) for t in case["thr"])}
 
 
 # ----------------------------------------------------------------------------- brier_score cases
@@ -229,6 +248,8 @@ def run_brier(case):
     dtype: storage format of fcst and obs ("f8" | "f4" | "i8" fcst only).  Values of a Dataset result: "bad"/"v" first,
     then "ok"."""
     from scores.probability import brier_score
+    if case.get("multi"):
+        return run_brier_multi(case)
     cont = case.get("container") or "da"
     dt = DTYPES[case.get("dtype") or "f8"]
     odt = float if dt is np.int64 else dt
@@ -289,6 +310,8 @@ def brier_fibres(case):
 
 
 def brier_ops(case, opname):
+    if case.get("multi"):
+        return brier_multi_ops(case, opname)
     check = True if case["check"] == "omit" else case["check"]
     two = case.get("container") in ("ds2", "ds3")
     ff = [x for r in case["f"] for x in r] + ([x for r in ok_var(case) for x in r] if two else [])
@@ -301,6 +324,8 @@ def brier_ops(case, opname):
 
 
 def brier_desc(case):
+    if case.get("multi"):
+        return {k: case[k] for k in ("multi", "kind", "vars", "w", "check", "red", "probe")}
     d = {k: case[k] for k in ("f", "o", "w", "check", "red")}
     for k in ("container", "dtype", "probe"):
         if case.get(k):
@@ -309,6 +334,8 @@ def brier_desc(case):
 
 
 def brier_tags(case):
+    if case.get("multi"):
+        return {"check": str(case["check"]), "container": "multi:" + case["kind"], "probe": case["probe"].rsplit(":", 1)[0]}
     t = {"check": str(case["check"])}
     for k in ("container", "dtype"):
         if case.get(k):
@@ -320,9 +347,135 @@ def brier_tags(case):
 
 def brier_close(case, x, v):
     """float32 storage: the implementation computes in float32 (relative error ~1e-7 per operation)"""
-    if case.get("dtype") == "f4":
+    if case.get("dtype") == "f4" or (case.get("multi") and any("f4" in (u["fdt"], u["odt"]) for u in case["vars"])):
         return core.close(x, v, rtol=2e-6, atol=1e-9)
     return core.close(x, v)
+
+
+# ----------------------------------------------------------------------------- Datasets of several DIFFERENT variables
+# The guards of brier_score concern every variable of a Dataset, whatever its position: a case is
+#   {"multi": True, "kind": "ds-ds" | "da-ds" | "ds-da", "vars": [{"name", "f", "o", "fdt", "odt"}, ...] (in Dataset order), ...}
+# "da-ds": the forecast is ONE DataArray (every variable carries the same "f") scored against a Dataset of observations;
+# "ds-da": a Dataset of forecasts against ONE DataArray of observations (every variable carries the same "o").
+BAD_OBS = [("0.5", 0.5), ("2", 2.0), ("-1", -1.0), ("1.0000001", 1.0000001), ("0.25", 0.25), ("1+2^-52", 1.0 + 2.0 ** -52),
+           ("-5e-324", -5e-324), ("inf", float("inf")), ("-inf", float("-inf")), ("3", 3.0)]
+BAD_FCST = [("1.25", 1.25), ("-0.25", -0.25), ("2", 2.0), ("-1", -1.0), ("1.0000001", 1.0000001), ("1+2^-52", 1.0 + 2.0 ** -52),
+            ("-5e-324", -5e-324), ("inf", float("inf")), ("-inf", float("-inf"))]
+VAR_NAMES = ["rain", "fog", "frost", "alpha", "z", "B"]          # (never the name of a dimension)
+
+
+def _integral(mat):
+    return all((not math.isnan(x)) and (not math.isinf(x)) and float(x).is_integer() for r in mat for x in r)
+
+
+def gen_brier_multi(rng):
+    """every non-binary observation value (resp. out-of-range forecast value, resp. none) x 2..4 variables x EVERY position
+    of the offending variable x the three container pairings; shapes, position of the value inside its variable, NaNs,
+    storage formats (float64 / float32 / int64 where the values allow), weights, reduction and check_args drawn"""
+    out = []
+
+    def build(kind, nvar, slot, label, v, pos, check):
+        na, nb = rng.choice([(1, 1), (1, 3), (2, 2), (2, 3), (3, 2)])
+        names = rng.sample(VAR_NAMES, nvar)
+        pn = rng.choice([0.0, 0.0, 0.25])
+
+        def fmat():
+            return [[NAN if rng.random() < pn else rng.choice(VALID_F) for _ in range(nb)] for _ in range(na)]
+
+        def omat():
+            return [[NAN if rng.random() < pn else rng.choice([0.0, 1.0]) for _ in range(nb)] for _ in range(na)]
+        f_shared, o_shared = fmat(), omat()
+        vs = []
+        for k, name in enumerate(names):
+            u = {"name": name, "f": [list(r) for r in f_shared] if kind == "da-ds" else fmat(),
+                 "o": [list(r) for r in o_shared] if kind == "ds-da" else omat(), "fdt": "f8", "odt": "f8"}
+            vs.append(u)
+        if slot is not None:
+            i, j = rng.randrange(na), rng.randrange(nb)
+            shared = (kind == "da-ds" and slot == "f") or (kind == "ds-da" and slot == "o")
+            for u in (vs if shared else [vs[pos]]):
+                u[slot][i][j] = v
+            if rng.random() < 0.3 and pos + 1 < nvar and not (kind == "da-ds" and slot == "f") and not (kind == "ds-da" and slot == "o"):
+                # a later variable that is all-NaN: the offending value must be seen behind it
+                vs[-1][slot] = [[NAN] * nb for _ in range(na)]
+        # storage formats: float32 / int64 only where they hold the values exactly
+        for u in vs:
+            for key, dkey in (("f", "fdt"), ("o", "odt")):
+                r = rng.random()
+                if r < 0.2 and _integral(u[key]):
+                    u[dkey] = "i8"
+                elif r < 0.4 and all(math.isnan(x) or _f32(x) == x for row in u[key] for x in row):
+                    u[dkey] = "f4"
+        if kind == "da-ds":
+            for u in vs[1:]:
+                u["fdt"] = vs[0]["fdt"]
+        if kind == "ds-da":
+            for u in vs[1:]:
+                u["odt"] = vs[0]["odt"]
+        w = None
+        if rng.random() < 0.25:
+            w = [[rng.choice([0.5, 1.0, 2.0, 0.25, 0.0]) for _ in range(nb)] for _ in range(na)]
+        where = "none" if slot is None else "last" if pos == nvar - 1 else "first" if pos == 0 else "middle"
+        out.append({"multi": True, "kind": kind, "vars": vs, "w": w, "check": check,
+                    "red": rng.choice([None, None, "all", [fresh("a")], [fresh("b")]]),
+                    "probe": f"{slot or 'valid'}:{where}-of-{nvar}:{label}"})
+
+    for kind in ("ds-ds", "da-ds", "ds-da"):
+        for nvar in (2, 3, 4):
+            for label, v in BAD_OBS:
+                # "ds-da": one DataArray of observations (the same in every variable) -- position is immaterial
+                for pos in (range(1) if kind == "ds-da" else range(nvar)):
+                    build(kind, nvar, "o", label, v, pos, rng.choice([True, "omit"]))
+            for label, v in BAD_FCST:
+                for pos in (range(1) if kind == "da-ds" else range(nvar)):
+                    build(kind, nvar, "f", label, v, pos, rng.choice([True, "omit"]))
+            for _ in range(3):
+                build(kind, nvar, None, "valid", None, 0, rng.choice([True, "omit", False]))
+            # unchecked: whatever the values, the score is the mean squared difference of the exact values
+            label, v = rng.choice(BAD_OBS[:6])
+            build(kind, nvar, "o", label, v, rng.randrange(nvar), False)
+    return out
+
+
+def run_brier_multi(case):
+    """values of the result: variable by variable in Dataset order"""
+    from scores.probability import brier_score
+    vs, kind = case["vars"], case["kind"]
+
+    def da(v, d):
+        return xr.DataArray(np.array(v, dtype=DTYPES[d]), dims=[fresh("a"), fresh("b")])
+    fx = da(vs[0]["f"], vs[0]["fdt"]) if kind == "da-ds" else xr.Dataset({fresh(u["name"]): da(u["f"], u["fdt"]) for u in vs})
+    ox = da(vs[0]["o"], vs[0]["odt"]) if kind == "ds-da" else xr.Dataset({fresh(u["name"]): da(u["o"], u["odt"]) for u in vs})
+    kw = {}
+    if case["w"] is not None:
+        kw["weights"] = xr.DataArray(np.array(case["w"], dtype=float), dims=[fresh("a"), fresh("b")])
+    if case["check"] != "omit":
+        kw["check_args"] = case["check"]
+    if case["red"] is not None:
+        kw["reduce_dims"] = case["red"]
+    try:
+        with np.errstate(all="ignore"):
+            out = brier_score(fx, ox, **kw)
+        names = [u["name"] for u in vs]
+        if not isinstance(out, xr.Dataset) or sorted(out.data_vars) != sorted(names):
+            return ("err", f"shape: result {type(out).__name__} {list(getattr(out, 'data_vars', []))}")
+        return ("ok", [x for k in names for x in np.asarray(out[k].values, dtype=float).ravel().tolist()], tuple(out[names[0]].dims))
+    except Exception as ex:  # noqa: BLE001
+        return ("err", core.exc_class(ex))
+
+
+def brier_multi_ops(case, opname):
+    """row 0: the guards on ALL values of ALL variables; then the cells of each variable in Dataset order"""
+    check = True if case["check"] == "omit" else case["check"]
+    vs = case["vars"]
+    ff = [x for u in vs for r in u["f"] for x in r]
+    oo = [x for u in vs for r in u["o"] for x in r]
+    ops = [{"op": opname, "args": {"fcst": fls(ff), "obs": fls(oo), "weights": None, "check": check}}]
+    for u in vs:
+        for f, o, w in brier_fibres({"f": u["f"], "o": u["o"], "w": case["w"], "red": case["red"]}):
+            ops.append({"op": opname, "args": {"fcst": fls(f), "obs": fls(o), "weights": None if w is None else fls(w),
+                                               "check": False}})
+    return ops
 
 
 # ----------------------------------------------------------------------------- probes at the resolution limit of the format
@@ -480,6 +633,44 @@ def gen_ens_probes(rng, n):
     return out
 
 
+INF_THRESHOLDS = [[-INF, 1.0, INF], [INF], [-INF], [-INF, 0.5], [0.5, INF], [-INF, INF], [-INF, -1.0, 0.0, 0.0, 2.0, INF]]
+
+
+def gen_ens_inf_probes(rng):
+    """infinite event thresholds (-inf first, +inf last, alone) x every operator x fair on/off: observations and members
+    equal to that infinity, to the opposite one, finite, missing -- y and i follow the order of the extended reals
+    (inf >= inf, -inf <= -inf are true; inf > inf, -inf < -inf are false)"""
+    out = []
+    for thr in INF_THRESHOLDS:
+        for op in COMPL:
+            for fair in (True, False):
+                pool = [INF, -INF, INF, -INF, NAN] + [t for t in thr if not math.isinf(t)] + [core.dyadic(rng, -3, 3)]
+                nmem = rng.choice([1, 2, 3, 4])
+                fc = [[INF] * nmem, [-INF] * nmem] + [[rng.choice(pool) for _ in range(nmem)] for _ in range(3)]
+                ob = [INF, -INF, rng.choice(pool), INF, -INF]
+                k = rng.randrange(5)
+                fc, ob = fc[k:] + fc[:k], ob[k:] + ob[:k]
+                if rng.random() < 0.3:
+                    ob[rng.randrange(5)] = NAN
+                weights = None
+                if rng.random() < 0.25:
+                    weights = [rng.choice([0.0, 0.5, 1.0, 2.0, NAN]) for _ in range(5)]
+                out.append({"fcst": fc, "obs": ob, "thr": list(thr), "scalar_thr": len(thr) == 1 and rng.random() < 0.5, "op": op,
+                            "fair": fair, "weights": weights, "member_first": rng.random() < 0.3, "malformed": None,
+                            "thr_dim": rng.choice([None, None, "thr"]), "default_op": rng.random() < 0.5})
+    return out
+
+
+def inf_tag(c):
+    """where the infinities of an ensemble case sit (for the measured input distribution)"""
+    it = [t for t in c["thr"] if math.isinf(t)]
+    if not it:
+        return None
+    on = any(o in it for o in c["obs"])
+    mem = any(x in it for r in c["fcst"] for x in r)
+    return "infinite-threshold:" + ("obs-on-it" if on else "obs-elsewhere") + (":member-on-it" if mem else "")
+
+
 def thr_monotone(thr):
     """exact: python float comparison is a comparison of the values"""
     return all(a <= b for a, b in zip(thr, thr[1:]))
@@ -495,6 +686,7 @@ def correspondence(ctx):
         c["default_op"] = rng.random() < 0.5
         cases.append(c)
     cases += gen_ens_probes(rng, ctx.n(80, 1500))
+    cases += gen_ens_inf_probes(rng)
     model = core.run_driver("C13", [{"op": "c13.ens", "args": ens_args(c)} for c in cases])
     for c, m in zip(cases, model):
         res = run_ens(c)
@@ -505,6 +697,8 @@ def correspondence(ctx):
         if c.get("dtype"):
             ctx.tag("ens-resolution-probe:" + c["dtype"] + (":decreasing-thresholds" if not thr_monotone(c["thr"]) else ""))
         ctx.tag(f"op:{c['op']}")
+        if inf_tag(c):
+            ctx.tag(inf_tag(c))
         if not ens_matches(res, m):
             ctx.fail("ensemble-vs-translated-model", "correspondence", "probability.brier_score_for_ensemble", "value",
                      ens_desc(c), observed=res, expected=m, tags=t)
@@ -526,7 +720,7 @@ def correspondence(ctx):
             ctx.fail("per-case-formula-grid", "correspondence", "probability.brier_score_for_ensemble", "per-case-value",
                      {"i": i, "m": m, "y": y, "fair": fair}, observed=got, expected=r, tags={"m": str(m), "fair": str(fair)})
     # brier_score
-    bcs = [gen_brier_case(rng) for _ in range(ctx.n(200, 4000))] + gen_brier_probes(rng)
+    bcs = [gen_brier_case(rng) for _ in range(ctx.n(200, 4000))] + gen_brier_probes(rng) + gen_brier_multi(rng)
     ops, spans = [], []
     for c in bcs:
         o = brier_ops(c, "c13.brier")
@@ -618,14 +812,17 @@ def oracle(ctx, boost):
                 cases.append({"fcst": [mem, list(reversed(mem))], "obs": [0.5, 0.25], "thr": [0.5], "scalar_thr": False, "op": op,
                               "fair": fair, "weights": None, "member_first": False, "malformed": None})
     cases += gen_ens_probes(rng, ctx.n(120, 2000) * mult)
+    cases += gen_ens_inf_probes(rng)
     spec = core.run_driver("C13S", [{"op": "c13.ensspec", "args": ens_args(c)} for c in cases])
     for c, s in zip(cases, spec):
         ctx.case("ensemble-vs-definition", ens_desc(c))
         ctx.tag("oracle-m:" + ens_tags(c)["m"])
         if c.get("dtype"):
             ctx.tag("oracle-ens-resolution-probe:" + c["dtype"] + (":decreasing-thresholds" if not thr_monotone(c["thr"]) else ""))
+        if inf_tag(c):
+            ctx.tag("oracle-" + inf_tag(c))
         oracle_ens_case(ctx, "ensemble-vs-definition", c, s)
-    bcs = [gen_brier_case(rng) for _ in range(ctx.n(200, 4000) * mult)] + gen_brier_probes(rng)
+    bcs = [gen_brier_case(rng) for _ in range(ctx.n(200, 4000) * mult)] + gen_brier_probes(rng) + gen_brier_multi(rng)
     ops, spans = [], []
     for c in bcs:
         o = brier_ops(c, "c13.brierspec")
@@ -636,7 +833,10 @@ def oracle(ctx, boost):
     rows = core.run_driver("C13S", ops)
     for c, (s, n) in zip(bcs, spans):
         ctx.case("brier-vs-definition", brier_desc(c))
-        if c.get("probe"):
+        if c.get("multi"):
+            ctx.tag("oracle-brier-multi-variable:" + c["kind"] + ":" + c["probe"].split(":")[0] + ":" + c["probe"].split(":")[1].split("-")[0]
+                    + ":" + ("accepted" if rows[s]["accepted"] else "outside") + ":check=" + str(c["check"]))
+        elif c.get("probe"):
             ctx.tag("oracle-brier-boundary-probe:" + ("accepted" if rows[s]["accepted"] else "outside") + ":"
                     + c["container"] + ":" + c["dtype"] + ":check=" + str(c["check"]))
         oracle_brier_case(ctx, "brier-vs-definition", c, rows[s:s + n])
@@ -650,6 +850,8 @@ def replay(ctx, payload):
     def unfl(v):
         if isinstance(v, list):
             return [unfl(x) for x in v]
+        if isinstance(v, dict):
+            return {k: unfl(x) for k, x in v.items()}
         if isinstance(v, str) and v in ("nan", "inf", "-inf"):
             return float(v)
         return v
@@ -658,7 +860,7 @@ def replay(ctx, payload):
         c["malformed"] = None
         s = core.run_driver("C13S", [{"op": "c13.ensspec", "args": ens_args(c)}])[0]
         return not oracle_ens_case(ctx2, "replay", c, s)
-    if "f" in c:
+    if "f" in c or "vars" in c:
         ops = brier_ops(c, "c13.brierspec")
         for x in ops:
             x["args"].pop("check")
